@@ -32,7 +32,16 @@ def run(cx):
         raise Anchor("Channel::channel: expected one Channel literal")
     ops = dict(zip(lit[0][2][2][3], lit[0][2][2][4]))
     glob = pa.root(f, ops["glob"])
-    slots = f.blocks[glob[1]]["s"][glob[2]][2][1] if glob[0] == "tuple" else []
+    # the five matchers live in a tuple or in a small struct: a slot is a position either way
+    name2idx = {}
+    if glob[0] == "tuple":
+        slots = f.blocks[glob[1]]["s"][glob[2]][2][1]
+    elif glob[0] == "agg" and glob[3] >= 0:
+        rv_ = f.blocks[glob[3]]["s"][glob[4]][2]
+        slots = rv_[4]
+        name2idx = {n_: str(i_) for i_, n_ in enumerate(rv_[3])}
+    else:
+        slots = []
     compiled = []
     for o in slots:
         r = pv.root(f, o)
@@ -58,6 +67,7 @@ def run(cx):
     for c in calls:
         slot = pa.root(g, c.args[0])
         sidx = slot[3][-1] if slot[0] == "param" and slot[3] else None
+        sidx = name2idx.get(sidx, sidx)
         v = pv.root(g, c.args[1])
         n = 0
         while v[0] == "call" and n < 5:
